@@ -79,7 +79,7 @@ func tlcPar() int {
 
 var rePkgLine = regexp.MustCompile(`^(c\d+)/`)
 
-var rePos = regexp.MustCompile(`^[^\s:]+\.go:\d+:\d+: `)
+var rePos = regexp.MustCompile(`^[^\s:]+\.go:\d+(:\d+)?: `)
 
 // compiler messages name the offending type; the defect class does not depend on it
 var reNorm = []struct {
@@ -87,6 +87,7 @@ var reNorm = []struct {
 	rep string
 }{
 	{regexp.MustCompile(`struct\s*\{[^}]*\}`), "T"},
+	{regexp.MustCompile(`\b(param|innerParam)_\d+\b`), "${1}_N"},
 	{regexp.MustCompile(`\((variable|value) of [^)]*\)`), "($1)"},
 	{regexp.MustCompile(`\S+\(.*\) \(no value\) used as value`), "f(...) (no value) used as value"},
 	{regexp.MustCompile(`(map\[string\]int|\*rt\.St|\[\]int|\[\]string|\brt\.(NInt|St|Ar|If)\b|\b(string|bool|int|rune)\b)`), "T"},
